@@ -7,6 +7,10 @@ mod text;
 mod codec;
 mod hc;
 mod ep;
+mod heap;
+
+#[global_allocator]
+static GLOBAL: heap::Checking = heap::Checking;
 
 use std::io::{self, BufRead, Write};
 
@@ -60,6 +64,21 @@ fn main() {
             continue;
         }
         let toks: Vec<&str> = line.split(' ').filter(|t| !t.is_empty()).collect();
+        // machine-independent operations: `reset` drops every object of the case, `heap ...` talks to the allocator
+        let special = if toks == ["reset"] {
+            machine = make();
+            dead = false;
+            Some(String::from("ok"))
+        } else {
+            heap::op(&toks)
+        };
+        if let Some(text) = special {
+            writeln!(out, "{}", text).unwrap();
+            if interactive {
+                out.flush().unwrap();
+            }
+            continue;
+        }
         // after a panic the objects may be in an arbitrary state: the case is over
         let text = if dead {
             String::from("dead")
